@@ -859,6 +859,82 @@ impl TcpStream {
         let a = std::sync::Arc::new(self);
         (tcp::OwnedReadHalf(a.clone()), tcp::OwnedWriteHalf(a))
     }
+
+    // socket options have no counterpart in the simulated network: accepted and ignored
+    pub fn set_linger(&self, _d: Option<std::time::Duration>) -> io::Result<()> {
+        Ok(())
+    }
+    pub fn linger(&self) -> io::Result<Option<std::time::Duration>> {
+        Ok(None)
+    }
+    pub fn set_ttl(&self, _ttl: u32) -> io::Result<()> {
+        Ok(())
+    }
+    pub fn ttl(&self) -> io::Result<u32> {
+        Ok(64)
+    }
+}
+
+/// `tokio::net::TcpSocket`: a socket configured before it listens or connects (a change to the
+/// library may build its listener or its connection that way); options are accepted and ignored,
+/// `listen` and `connect` are those of `TcpListener::bind` and `TcpStream::connect`
+#[derive(Debug)]
+pub struct TcpSocket {
+    v6: bool,
+    bound: std::sync::Mutex<Option<SocketAddr>>,
+}
+
+impl TcpSocket {
+    pub fn new_v4() -> io::Result<TcpSocket> {
+        Ok(TcpSocket { v6: false, bound: std::sync::Mutex::new(None) })
+    }
+    pub fn new_v6() -> io::Result<TcpSocket> {
+        Ok(TcpSocket { v6: true, bound: std::sync::Mutex::new(None) })
+    }
+    pub fn set_reuseaddr(&self, _v: bool) -> io::Result<()> {
+        Ok(())
+    }
+    pub fn reuseaddr(&self) -> io::Result<bool> {
+        Ok(true)
+    }
+    pub fn set_reuseport(&self, _v: bool) -> io::Result<()> {
+        Ok(())
+    }
+    pub fn set_keepalive(&self, _v: bool) -> io::Result<()> {
+        Ok(())
+    }
+    pub fn set_nodelay(&self, _v: bool) -> io::Result<()> {
+        Ok(())
+    }
+    pub fn set_linger(&self, _d: Option<std::time::Duration>) -> io::Result<()> {
+        Ok(())
+    }
+    pub fn set_send_buffer_size(&self, _n: u32) -> io::Result<()> {
+        Ok(())
+    }
+    pub fn set_recv_buffer_size(&self, _n: u32) -> io::Result<()> {
+        Ok(())
+    }
+    pub fn bind(&self, addr: SocketAddr) -> io::Result<()> {
+        if addr.is_ipv6() != self.v6 {
+            return Err(io::Error::from(io::ErrorKind::InvalidInput));
+        }
+        *self.bound.lock().unwrap() = Some(addr);
+        Ok(())
+    }
+    pub fn local_addr(&self) -> io::Result<SocketAddr> {
+        self.bound.lock().unwrap().ok_or_else(|| io::Error::from(io::ErrorKind::InvalidInput))
+    }
+    pub fn listen(self, _backlog: u32) -> io::Result<TcpListener> {
+        let b = *self.bound.lock().unwrap();
+        match b {
+            Some(a) => TcpListener::bind_now(a),
+            None => Err(io::Error::from(io::ErrorKind::InvalidInput)),
+        }
+    }
+    pub async fn connect(self, addr: SocketAddr) -> io::Result<TcpStream> {
+        TcpStream::connect(addr).await
+    }
 }
 
 impl AsyncRead for TcpStream {
